@@ -1,6 +1,7 @@
 /- Line-protocol driver for the converter model (C01–C03, C10, C11, C13–C15 correspondence). -/
 import Lean.Data.Json
 import LspVerif.Core.Cattrs
+import LspVerif.Core.Erase
 namespace LspVerif.Driver
 open LspVerif
 
@@ -65,9 +66,22 @@ def isUnspec : Err → Bool
 
 def fuel : Nat := 400
 
+/-- `clean ROOT k1,k2,.. JSON`: is the hypothesis of the global C15 theorem met for each listed key? -/
+def cleanStep (E : Env) (ty keys txt : String) : String :=
+  match resolveType E ty, Lean.Json.parse txt with
+  | some t, .ok lj =>
+    let j := ofLeanJson lj
+    let ks := (keys.splitOn ",").filter (· != "")
+    match ks.find? (fun k => !(clean E (Name.ofString k) fuel t j)) with
+    | some k => "dirty:" ++ k
+    | none => "clean"
+  | none, _ => "no-such-type"
+  | _, .error _ => "bad-json"
+
 def convStep (E : Env) (line : String) : String :=
   let line := line.trimAscii.toString
   match line.splitOn " " with
+  | "clean" :: ty :: keys :: rest => cleanStep E ty keys (" ".intercalate rest)
   | op :: ty :: rest =>
     let txt := " ".intercalate rest
     match resolveType E ty, Lean.Json.parse txt with
